@@ -86,3 +86,32 @@ Proof.
   - vm_compute. reflexivity.
   - vm_compute. reflexivity.
 Qed.
+
+(* "net of units already queued for removal": the units a provider has queued against a pool are the sum over its requests
+   against THAT pool, whatever requests against other pools lie before, between or after them in the store's key order;
+   a removal that passes the gate leaves the queued units with the provider. (The queue itself: see Model/ClpQueue.v on
+   why it stays empty on a running chain; the keeper's function is compared on queues built through the message server.) *)
+From Coq Require Import Permutation.
+From Sif Require Import Model.ClpQueue Proofs.QueueProofs.
+
+Theorem C02_queued_units_order_free : forall lp asset l1 l2 q1 q2,
+  Permutation l1 l2 -> queued_units lp asset l1 = Ok q1 -> queued_units lp asset l2 = Ok q2 -> q1 = q2.
+Proof. exact queued_units_perm. Qed.
+Print Assumptions C02_queued_units_order_free.
+
+Theorem C02_queued_units_other_pools : forall lp asset reqs others q,
+  Forall (fun r => fst r <> asset) others ->
+  queued_units lp asset reqs = Ok q -> forall mixed, Permutation mixed (others ++ reqs) ->
+  forall q', queued_units lp asset mixed = Ok q' -> q' = q.
+Proof. exact queued_units_other_pools. Qed.
+Print Assumptions C02_queued_units_other_pools.
+
+Theorem C02_removal_net_of_queued : forall wunits lp queued, removal_fits wunits lp queued = Ok true -> wunits + queued <= lp.
+Proof. exact removal_fits_bound. Qed.
+Print Assumptions C02_removal_net_of_queued.
+
+Example C02_queue_example :
+  queued_units 1000 2 [(1, 5000); (2, 2500); (1, 10000); (2, 5000)] = Ok 750 /\
+  queued_units 1000 2 [(2, 5000); (2, 2500)] = Ok 750 /\
+  removal_fits 250 1000 750 = Ok true /\ removal_fits 251 1000 750 = Ok false.
+Proof. vm_compute. repeat split; reflexivity. Qed.
